@@ -6,7 +6,7 @@ from checks import lib
 from checks import C07shared as S
 
 PROPERTY = "C08"
-LEAN_MODULES = ["KafVerif.Props.C08", "KafVerif.Model.KafkaDriver"]
+LEAN_MODULES = ["KafVerif.Props.C08", "KafVerif.Model.KafkaPitrDriver"]
 OBLIGATIONS = [
     "KafVerif.C08.scanLoop_keeps_prefix",
     "KafVerif.C08.rewritten_batch_is_encoding",
@@ -16,12 +16,20 @@ OBLIGATIONS = [
     "KafVerif.C08.restore_fail_clean",
     "KafVerif.C08.last_candidate_spec",
     "KafVerif.C08.restore_run_exact",
+    "KafVerif.C08.cutoff_is_floor",
+    "KafVerif.C08.candidate_after_is_floor",
+    "KafVerif.C08.restored_prefix_cut_at_time",
+    "KafVerif.C08.restore_run_exact_at",
+    "KafVerif.C08.collect_hdr_true",
+    "KafVerif.C08.restore_again_identity",
+    "KafVerif.C08.restore_again_earlier",
 ]
 ASSUMPTIONS = [
     "S3 contract: a call either fails without effect or takes effect atomically on one object; the i-th call of a run fails iff i is in the fault set (every call index is explored); delete failures are allowed and then the clean-up claim is void, as the property says",
     "object keys are abstract (topic, partition, base offset) triples in the model; key formatting/parsing is exercised through the real code only",
     "source batches are well formed: firstTimestamp is the first record's timestamp and maxTimestamp the maximum (the scanner trusts these header fields for whole-batch decisions)",
     "CRC-32C is a parameter of the theorems",
+    "the restore time is a Go time.Time without monotonic reading: (seconds since the epoch, floored; nsec in [0, 1e9)), as time.Unix / time.UnixMilli / time.Parse build it; int64 overflow of UnixMilli (|t| > 292 million years) is outside the model",
     "restore_run_exact: the store is a map (distinct object keys), the target topic is empty before the run, and every source-topic segment object is BuildSegment of a non-empty list of well-formed uncompressed batches stored under the base offset of its first batch (what the broker writes); the allocator admits one copy of a segment body",
 ]
 BUILDS = {
@@ -30,17 +38,40 @@ BUILDS = {
 }
 LEVEL_TEXT = ("proof: Lean 4 theorems over a model of RecoverTopicToTimestamp (candidate selection, copy loop, rollback defer) on an S3 "
               "object map with a fault oracle, and of truncateRecordBatchToTimestamp/scanRecord/collectRecoverableBatches at byte level; "
-              "tied to the code by correspondence of result + target objects on generated histories x fault positions")
+              "the restore time as a Go time.Time (nanoseconds; UnixMilli = floor, After); "
+              "tied to the code by correspondence of result + target objects on generated histories x fault positions x restore times with "
+              "sub-millisecond fractions, incl. restoring the restored topic again")
 LEVEL_NOTE = ("byte level, object level and their composition over a whole multi-partition run with an arbitrary fault set are "
               "proved (restore_run_exact: target objects = whole copies before the last candidate + BuildSegment of the kept "
               "batches, decodable records = source records up to the first one later than T; failure + successful deletes = "
-              "empty target); the record-level part assumes uncompressed broker-written source segments")
+              "empty target); the cutoff is the floor of the restore time for every time.Time (cutoff_is_floor, also before 1970) and the "
+              "kept batches carry true headers again (collect_hdr_true), so restoring again is the identity at T2 >= T and equals restoring "
+              "the source at T' <= T (batch level); the record-level part assumes uncompressed broker-written source segments")
 TECHNIQUE = "lean4-proof + differential correspondence (fake S3 with fault oracle) + direct byte-level monitor of the target objects"
 
 T0 = 1700000100000
+M = 10 ** 6          # nanoseconds per millisecond
+# sub-millisecond part of the restore time, in ns: the record cutoff is floor(T) whatever the fraction
+FRACS = [0, 1, 499000, 499999, 500000, 500001, 501000, 999000, 999999]
 
 
 # ----------------------------------------------------------------------------- generation
+def ooo_timestamps(rng, T):
+    """Record timestamps of ONE batch that go backwards inside the batch and that a cut at T splits in the middle:
+    >= 2 kept records whose LAST one is below the running maximum, then the first record later than T, then maybe
+    records that are <= T again (they follow the cut, so they must not be restored)."""
+    k = rng.choice([2, 2, 3, 4])
+    first = T - rng.choice([0, 1, 5, 100])
+    kept = [first]
+    for _ in range(1, k):
+        kept.append(rng.choice([T, T - 1, T - 2, first - 1, first - 20, first + (T - first) // 2]))
+    kept[-1] = max(kept[:-1]) - rng.choice([1, 3, 1000])
+    out = kept + [T + rng.choice([1, 2, 1000])]
+    for _ in range(rng.choice([0, 0, 1, 2])):
+        out.append(rng.choice([T, T - 5, T + 3, first - 1]))
+    return out
+
+
 def gen_partition(rng, T):
     """Segments of one partition as case dicts for the `build` op, plus created times."""
     nseg = rng.choice([1, 1, 2, 2, 3, 4])
@@ -48,8 +79,9 @@ def gen_partition(rng, T):
     ts = T - rng.choice([0, 1, 50, 500, 5000, 100000])
     segs = []
     # timestamps are producer-assigned, so a batch wholly later than T may be followed by batches at or before T (several
-    # producers, clock skew): `gap` forces that layout in the partition's last segment, `regress` sprinkles it anywhere
-    layout = rng.choice(["-", "-", "gap", "edge"])
+    # producers, clock skew): `gap` forces that layout in the partition's last segment, `regress` sprinkles it anywhere;
+    # `ooo`: timestamps go backwards INSIDE the batch that is cut; `nextms`: records stamped T and T+1 ms next to each other
+    layout = rng.choice(["-", "-", "gap", "edge", "ooo", "nextms"])
     gap = layout != "-"
     for si in range(nseg):
         nb = rng.choice([1, 1, 2, 3])
@@ -66,6 +98,18 @@ def gen_partition(rng, T):
                 forced.append((T - rng.choice([0, 1]), "maxT"))
             if rng.chance(1, 2):
                 forced.append((T + rng.choice([1, 100]), "any"))
+        elif layout == "ooo" and si == nseg - 1:
+            forced = [(T - rng.choice([2, 60]), "flat")] if rng.chance(1, 2) else []
+            forced.append((T, "ooo"))
+            if rng.chance(1, 3):
+                forced.append((T - rng.choice([0, 4]), "flat"))
+        elif layout == "nextms" and si == nseg - 1:
+            if rng.chance(1, 2):
+                forced = [(T - rng.choice([1, 9]), "maxT"), (T + 1, "flat")]       # batch boundary between T and T+1
+            else:
+                forced = [(T, "ms")]                                               # T and T+1 inside one batch
+            if rng.chance(1, 2):
+                forced.insert(0, (T - rng.choice([1, 30]), "flat"))
         if forced is not None:
             nb = len(forced)
         batches = []
@@ -73,10 +117,21 @@ def gen_partition(rng, T):
             mode = "any"
             if forced is not None:
                 ts, mode = forced[bi]
-            n = rng.choice([1, 2, 3, 4]) if mode != "maxT" else rng.choice([2, 3, 4])
+            explicit = None
+            if mode == "ooo":
+                explicit = ooo_timestamps(rng, T)
+            elif mode == "ms":
+                seq = [T - 1, T, T, T + 1, T + 1, T + 2]
+                explicit = seq[rng.choice([0, 1, 2]):rng.choice([4, 5, 6])]
+            if explicit is not None:
+                ts, n = explicit[0], len(explicit)
+            else:
+                n = rng.choice([1, 2, 3, 4]) if mode != "maxT" else rng.choice([2, 3, 4])
             recs, od, last_ts = [], 0, ts
             for i in range(n):
-                if i == 0 or mode == "flat":
+                if explicit is not None:
+                    tsd = explicit[i] - ts
+                elif i == 0 or mode == "flat":
                     tsd = 0
                 elif mode == "maxT":
                     tsd = T - ts if i == n - 1 else rng.choice([0, (T - ts) // 2, T - ts])
@@ -108,7 +163,83 @@ def gen_case(rng):
     k = rng.below(8)
     c["allowed"] = "*" if k < 5 else ",".join(str(x) for x in sorted(set([rng.choice(parts), rng.choice([0, 1, 7])])))
     c["quirk"] = rng.choice(["none"] * 8 + ["no-index", "bad-magic", "short", "target-exists", "orphan-target-index", "compressed-last", "unrelated"])
+    # the restore time is a time.Time: T ms plus a sub-millisecond fraction (records are generated around floor = T)
+    frac = rng.choice([0, 0, 0] + FRACS)
+    c["Tns"] = T * M + frac
+    c["nsform"] = frac != 0 or rng.chance(1, 2)
     return c
+
+
+def plain_batch(base, tss):
+    """A batch with the given absolute record timestamps (first record = first timestamp, offsets contiguous)."""
+    recs = [{"attrs": 0, "tsd": t - tss[0], "od": i, "key": b"k%d" % i, "val": b"v%d" % (base + i), "hdrs": []} for i, t in enumerate(tss)]
+    return {"base": base, "first": tss[0], "lod": len(tss) - 1, "max": max(tss), "recs": recs}
+
+
+def fixed_case(Tns, segs, tag):
+    return {"T": Tns // M, "Tns": Tns, "nsform": True, "parts": {0: segs}, "allowed": "*", "quirk": "none", "fixed": tag}
+
+
+def frac_matrix():
+    """Restore times with every sub-millisecond fraction of FRACS, after 1970, at the epoch and before it (floor F < 0), against
+    records stamped F-1, F, F+1, F+2 ms — inside one batch and with the batch boundary between F and F+1 — and a last
+    candidate created at F+1 ms (later than T for every fraction) that is not the last segment."""
+    out = []
+    for F in [T0, 0, -1, -3]:
+        for frac in FRACS:
+            Tns = F * M + frac
+            first = {"interval": 1, "created": F - 1, "batches": [plain_batch(0, [F - 2, F - 1])]}
+            inside = [first,
+                      {"interval": 1, "created": F + 1, "batches": [plain_batch(2, [F - 1, F, F + 1, F + 2])]},
+                      {"interval": 1, "created": F + 5, "batches": [plain_batch(6, [F + 3])]}]
+            bound = [first,
+                     {"interval": 2, "created": F, "batches": [plain_batch(2, [F - 1, F]), plain_batch(4, [F + 1, F + 2])]}]
+            out.append(fixed_case(Tns, inside, "frac-inside"))
+            out.append(fixed_case(Tns, bound, "frac-boundary"))
+    return out
+
+
+def created_matrix():
+    """3 and 4 segments of one partition with EVERY pattern of creation times later / not later than T in offset order (the
+    creation time of a segment is whatever clock the writing broker had: not monotone in offset order).  The last candidate
+    is the FIRST segment created later than T; everything after it must not be copied."""
+    out = []
+    T = T0
+    for n in (3, 4):
+        for bits in range(2 ** n):
+            segs, base = [], 0
+            for i in range(n):
+                late = (bits >> i) & 1
+                created = (T + 1 + 1000 * ((i * 7) % 4)) if late else (T - 1000 * ((i * 5) % 3))
+                segs.append({"interval": 1, "created": created, "batches": [plain_batch(base, [T - 40 + i, T - 1, T + 2 + i])]})
+                base += 3
+            out.append(fixed_case(T * M + (999999 if bits % 3 == 0 else 0), segs, "created-%d" % n))
+    return out
+
+
+def ooo_matrix():
+    """One batch of n = 2..5 records cut at every position k = 1..n-1 (k records kept), the kept timestamps going backwards
+    in three ways (running maximum first / in the middle / last kept below the first timestamp); after the first record later
+    than T the batch goes on with records <= T and > T alternating."""
+    out = []
+    T = T0
+    for n in range(2, 6):
+        for k in range(1, n):
+            for pat in ("desc", "peak", "dip"):
+                if pat == "desc":
+                    kept = [T - 1 - i for i in range(k)]
+                elif pat == "peak":
+                    kept = [T - 10] + [T - 5 * i for i in range(k - 1)]
+                else:
+                    kept = [T - 10] + [T - 3 - 20 * i for i in range(k - 1)]
+                tss = kept + [T + 1] + [(T - 1 if i % 2 == 0 else T + 5) for i in range(n - k - 1)]
+                batches = [plain_batch(100, tss)]
+                if (n + k) % 2:
+                    batches.insert(0, plain_batch(97, [T - 50, T - 60, T - 40]))
+                segs = [{"interval": 1, "created": T - 1000, "batches": [plain_batch(batches[0]["base"] - 2, [T - 500, T - 400])]},
+                        {"interval": (1 if k % 2 else 100), "created": T + 7, "batches": batches}]
+                out.append(fixed_case(T * M + (300000 if pat == "peak" else 0), segs, "ooo-%s" % pat))
+    return out
 
 
 def patch_compressed(seg):
@@ -160,14 +291,22 @@ def materialise(ck, bins, cases):
             objs[-1][3] = patch_compressed(objs[-1][3])
         elif q == "unrelated":
             objs.append([2, 0, 0, objs[0][3], objs[0][4]])
-        # listing order of the fake S3 = lexicographic key order
-        tn = ["src", "dst", "zzz"]
-        objs.sort(key=lambda o: "ns/%s/%d/segment-%020d" % (tn[o[0]], o[1], o[2]))
+        objs.sort(key=list_key)
         c["objs"] = objs
 
 
+def list_key(o):
+    """listing order of the fake S3 = lexicographic key order"""
+    return "ns/%s/%d/segment-%020d" % (["src", "dst", "zzz"][o[0]], o[1], o[2])
+
+
+def time_token(c):
+    """the restore time on the wire: whole milliseconds (`time.UnixMilli`), or `<ns>ns` (`time.Unix(0, ns)`)"""
+    return "%dns" % c["Tns"] if c.get("nsform") else str(c["T"])
+
+
 def restore_op(c, fails):
-    t = ["restore", str(c["T"]), c["allowed"], ",".join(str(f) for f in fails) or "-"]
+    t = ["restore", time_token(c), c["allowed"], ",".join(str(f) for f in fails) or "-"]
     for topic, p, base, seg, idx in c["objs"]:
         t += ["OBJ", str(topic), str(p), str(base), S.tokb(seg), S.tokb(idx)]
     return " ".join(t)
@@ -230,7 +369,7 @@ def expected_targets(c):
             continue
         objs = sorted(objs, key=lambda o: o[2])
         created = [struct.unpack(">q", o[3][20:28])[0] if len(o[3]) >= 32 else 0 for o in objs]
-        L = next((i for i, cr in enumerate(created) if cr > c["T"]), len(objs) - 1)
+        L = next((i for i, cr in enumerate(created) if cr * M > c["Tns"]), len(objs) - 1)     # created later than the instant T
         for o in objs[:L]:
             whole[(p, o[2])] = (o[3], o[4])
         final[p] = objs[L]
@@ -240,17 +379,38 @@ def expected_targets(c):
 STATS = {}
 
 
+def final_kinds(c):
+    """{partition: how the last candidate of a selected partition is cut at the instant T} — from the source objects alone
+    (`?` when the segment holds a compressed batch)."""
+    kinds = {}
+    for p, o in expected_targets(c)[1].items():
+        recs, _ = seg_records(o[3])
+        if recs is None:
+            kinds[p] = "?"
+            continue
+        n = next((i for i, r in enumerate(recs) if r[1] * M > c["Tns"]), len(recs))
+        kinds[p] = ("final:nothing-kept" if n == 0 else "final:kept-whole" if n == len(recs) else
+                    "final:cut-inside-batch" if recs[n - 1][3] == recs[n][3] else "final:cut-at-batch-boundary")
+    return kinds
+
+
+def parse_target(f):
+    tgt = {}
+    if f.get("target", "-") != "-":
+        for ent in f["target"].split(";"):
+            p, b, sh, ih = ent.split("/")
+            tgt[(int(p), int(b))] = (None if sh == "N" else S.unhex(sh), None if ih == "N" else S.unhex(ih))
+    return tgt
+
+
 def monitor(c, line, fails):
-    """Direct evaluation of the C08 statement on the implementation's answer.  Returns [(fingerprint, what)]."""
+    """Direct evaluation of the C08 statement on the implementation's answer.  Returns [(fingerprint, what)].
+    `later than T` is evaluated on instants: a millisecond stamp ts is later than the restore time iff ts * 10^6 > T_ns."""
     out = []
     f = S.kv(line)
     if "res" not in f:
         return [("restore-crashed", "RecoverTopicToTimestamp answered %r" % line[:60])]
-    tgt = {}
-    if f["target"] != "-":
-        for ent in f["target"].split(";"):
-            p, b, sh, ih = ent.split("/")
-            tgt[(int(p), int(b))] = (None if sh == "N" else S.unhex(sh), None if ih == "N" else S.unhex(ih))
+    tgt = parse_target(f)
     initial_tgt = {(o[1], o[2]): (o[3], o[4]) for o in c["objs"] if o[0] == 1}
     if f["srcsame"] != "1":
         out.append(("restore-touched-other-objects", "objects outside the target topic changed or odd keys appeared under the target"))
@@ -270,7 +430,7 @@ def monitor(c, line, fails):
             out.append(("whole-segment-copy-differs", "segment %s before the final candidate is not byte-identical in the target (or missing)" % (key,)))
     for p, o in final.items():
         recs, fr = seg_records(o[3])
-        T = c["T"]
+        T = c["Tns"] // M            # only for the header-level reasoning about opaque (compressed) batches below
         if recs is None:
             # compressed batch inside: whole batches may be kept on header timestamps; a cut inside one must fail
             metas = [(struct.unpack(">q", x[27:35])[0], struct.unpack(">q", x[35:43])[0]) for _, x in fr]
@@ -283,7 +443,7 @@ def monitor(c, line, fails):
             continue
         kept = []
         for r in recs:
-            if r[1] > T:
+            if r[1] * M > c["Tns"]:
                 break
             kept.append(r)
         cand = [k for k in tgt if k[0] == p and k not in whole and tgt[k] != initial_tgt.get(k)]
@@ -310,6 +470,17 @@ def monitor(c, line, fails):
             bad = bad or batch_valid(x)
         if bad:
             out.append(("rewritten-batch-invalid", "partition %d: rewritten batch invalid: %s" % (p, bad)))
+        if trecs is not None and not bad:
+            # the header of every restored batch must tell the truth about the records it now holds (max recomputed over the
+            # KEPT records; nothing later than T announced or contained): a later scan trusts these fields
+            for k, (_, x) in enumerate(tfr):
+                first, mx = struct.unpack(">qq", x[27:43])
+                mine = [r[1] for r in trecs if r[3] == k]
+                if mine and (mx != max(mine) or mx * M > c["Tns"]):
+                    out.append(("restored-batch-header-untrue",
+                                "partition %d: restored batch %d announces max timestamp %d but holds records stamped %s (T = %d ns)"
+                                % (p, k, mx, mine[:6], c["Tns"])))
+                    break
         if trecs is None or [(r[0], r[2]) for r in trecs] != [(r[0], r[2]) for r in kept]:
             got = "unparseable" if trecs is None else "%d records, offsets %s" % (len(trecs), [r[0] for r in trecs][:8])
             out.append(("restored-records-not-a-prefix",
@@ -338,30 +509,108 @@ def run_ops(ck, bins, ops, tag, model=True):
     return impl, calls, mod
 
 
+AGAIN_OK = ("none", "unrelated")
+
+
+def again_times(c, tgt, rng, level):
+    """Restore times (ns) for restoring the restored topic again: the same time, earlier ones placed on / just before the
+    timestamps of the records that were restored from final segments (so that a batch rewritten by the first restore is cut
+    again, or kept on its header), and a later one."""
+    stamps = set()
+    for (p, b), (seg, idx) in tgt.items():
+        if seg is None or len(seg) < 48:
+            continue
+        recs, _ = seg_records(seg)
+        for r in (recs or [])[-6:]:
+            stamps.add(r[1])
+    T = c["Tns"] // M
+    earlier = sorted(set(x for t in stamps for x in (t * M, t * M - 1, t * M + 500000) if x < c["Tns"] and x // M >= T - 100))
+    later = [c["Tns"] + rng.choice([1, 499999, M, 5000 * M])]
+    if level == "all":
+        if len(earlier) > 6:
+            earlier = sorted(set(rng.choice(earlier) for _ in range(6)))
+        return [c["Tns"]] + earlier + later
+    if level == "stamps":                      # on every restored timestamp below T (whole milliseconds)
+        return [c["Tns"]] + [x for x in earlier if x % M == 0]
+    pick = [c["Tns"]]
+    if earlier:
+        pick.append(rng.choice(earlier))
+    if rng.chance(1, 3):
+        pick += later
+    return pick
+
+
+def again_case(c, tgt, Tns):
+    """The restored topic as the source of another restore at `Tns`."""
+    objs = sorted(([0, p, b, seg, idx] for (p, b), (seg, idx) in tgt.items()), key=list_key)
+    return {"T": Tns // M, "Tns": Tns, "nsform": True, "allowed": c["allowed"], "quirk": "again", "objs": objs}
+
+
+def by_part(tgt, p):
+    return sorted((k, v) for k, v in tgt.items() if k[0] == p)
+
+
 def run(ck):
     bins = ck.build_all()
     if bins is None:
         return
-    ncase = 24 if ck.quick() else 160
+    ncase = 32 if ck.quick() else 160
     ck.cov["rule"] = ("histories = 1-3 partitions x 1-4 broker-built segments x 1-3 batches x 1-4 records with timestamps placed around T "
-                      "(equal, +-1, non-monotone inside a batch and across batches: a batch wholly later than T followed by batches <= T; a batch whose newest record is exactly at T followed by more records <= T), segment creation times before/at/after T, partition filters, and quirks (missing index, "
-                      "bad magic, short object, pre-existing target, orphan target index, compressed final batch, unrelated topic); each "
-                      "history is run fault-free and with a failure injected at S3 call indices (quick: 6 sampled incl. first/last upload "
-                      "and a delete; thorough: every index + pairs); non-trivial = at least one record bytes cut or a fault hit; "
-                      "distinct = distinct restore ops")
-    ck.partial = ("proved as one theorem (restore_run_exact) for every store whose source-topic segment objects are broker-written "
+                      "(equal, +-1, non-monotone inside a batch and across batches: a batch wholly later than T followed by batches <= T; a batch whose newest record is exactly at T followed by more records <= T; "
+                      "record timestamps going backwards inside the batch that is cut; records stamped T and T+1 ms side by side), "
+                      "restore times with a sub-millisecond fraction (0, 1 ns, 499/500/501/999 us, +-1 ns around them) after and before 1970, "
+                      "segment creation times before/at/after T (non-monotone in offset order), partition filters, and quirks (missing index, "
+                      "bad magic, short object, pre-existing target, orphan target index, compressed final batch, unrelated topic); fixed streams: "
+                      "every fraction x {2023, epoch, before 1970} x {T|T+1 inside a batch, at a batch boundary}; one batch of 2-5 records with "
+                      "backward timestamps cut at every position; each random history is run fault-free and with a failure injected at S3 call "
+                      "indices (quick: 6 sampled incl. first/last upload and a delete; thorough: every index + pairs); every successfully "
+                      "restored topic is restored again at the same, earlier and later times (monitor + laws: identity at T2 >= T, equal to "
+                      "restoring the source at T' < T); non-trivial = at least one record bytes cut or a fault hit; distinct = distinct restore ops")
+    ck.partial = ("proved as one theorem (restore_run_exact, restore_run_exact_at for a time.Time with nanoseconds) for every store whose "
+                  "source-topic segment objects are broker-written "
                   "from uncompressed well-formed batches with true header timestamps, every cutoff, partition filter and S3 fault "
                   "set; not covered by the theorem (checked by correspondence + byte-level monitor only): source segments that "
                   "contain compressed batches (opaque at record level: kept whole on header timestamps or the restore fails), the "
-                  "per-partition summaries returned to the caller, and the string form of object keys (C22)")
+                  "per-partition summaries returned to the caller, and the string form of object keys (C22); restoring a restored "
+                  "topic again is proved at batch level (collect_hdr_true, restore_again_identity, restore_again_earlier), the "
+                  "object-level laws are checked on the implementation only")
     cases = [gen_case(ck.rng.fork()) for _ in range(ncase)]
+    nrandom = len(cases)
+    cases += frac_matrix() + ooo_matrix() + created_matrix()
     materialise(ck, bins, cases)
     base_ops = [restore_op(c, []) for c in cases]
     impl0, calls0, _ = run_ops(ck, bins, base_ops, "p0", model=False)
+    # --- restoring the restored topic again (and the source at the earlier time, for the law)
+    derived = []        # (case, kind, link) ; kind: "again" (link = (ci, Tns)), "source-earlier"
+    laws = []           # (ci, T2ns, index of the again op in derived, index of the source-earlier op or None)
+    for ci, (c, line) in enumerate(zip(cases, impl0)):
+        f = S.kv(line)
+        if f.get("res") != "ok" or c["quirk"] not in AGAIN_OK:
+            continue
+        tgt = parse_target(f)
+        if not tgt or any(v[0] is None or v[1] is None for v in tgt.values()):
+            continue
+        fixed = c.get("fixed", "")
+        if ck.quick() and ((ci < nrandom and not ck.rng.chance(2, 3)) or
+                           (fixed.startswith("frac") and not (fixed == "frac-inside" and c["T"] == T0)) or
+                           fixed.startswith("created")):
+            continue
+        level = "all" if not ck.quick() else "stamps" if fixed.startswith("ooo") else "sample"
+        for T2 in again_times(c, tgt, ck.rng, level):
+            if fixed.startswith("frac") and T2 != c["Tns"] and ck.quick():
+                continue
+            derived.append(again_case(c, tgt, T2))
+            third = None
+            if T2 < c["Tns"]:
+                derived.append(dict(c, T=T2 // M, Tns=T2, nsform=True, fixed="", quirk=c["quirk"]))
+                third = len(derived) - 1
+                laws.append((ci, T2, third - 1, third))
+            else:
+                laws.append((ci, T2, len(derived) - 1, None))
     ops, owner, fl = [], [], []
     for ci, (c, n) in enumerate(zip(cases, calls0)):
-        ops.append(base_ops[ci]); owner.append(ci); fl.append([])
-        if n <= 0:
+        ops.append(base_ops[ci]); owner.append(c); fl.append([])
+        if n <= 0 or ci >= nrandom:
             continue
         if ck.quick():
             idxs = sorted(set([0, 1, n - 1, n - 2, ck.rng.below(n), ck.rng.below(n), ck.rng.below(n)]))
@@ -376,23 +625,63 @@ def run(ck):
                 fails.append(n + ck.rng.below(4))          # also fail one rollback delete
             elif k == 1:
                 fails.append(ck.rng.below(n))
-            ops.append(restore_op(c, sorted(set(fails)))); owner.append(ci); fl.append(sorted(set(fails)))
+            ops.append(restore_op(c, sorted(set(fails)))); owner.append(c); fl.append(sorted(set(fails)))
+    dbase = len(ops)
+    for c in derived:
+        ops.append(restore_op(c, [])); owner.append(c); fl.append([])
     impl, calls, mod = run_ops(ck, bins, ops, "p1")
-    for op, ci, fails, line in zip(ops, owner, fl, impl):
+    for op, c, fails, line in zip(ops, owner, fl, impl):
         f = S.kv(line)
         ck.count("res:" + f.get("res", "?"))
         if f.get("delfail") == "1":
             ck.count("delete-failed")
         if fails:
             ck.count("with-faults")
+        if c["quirk"] == "again":
+            ck.count("restored-topic-restored-again")
+        if c["Tns"] % M:
+            ck.count("restore-time-with-submillisecond-fraction")
+        if c["Tns"] < 0:
+            ck.count("restore-time-before-1970")
         cut = f.get("res") == "ok" and f.get("target", "-") != "-"
         ck.case(op, nontrivial=bool(cut or (fails and f.get("res") == "err")),
                 sample={"op": op[:200], "impl": line[:200]})
         ck.cov["traces_validated_against_impl"] += 1
-        for fp, what in monitor(cases[ci], line, fails):
-            ck.violation(fp, what, {"op": op, "case_quirk": cases[ci]["quirk"], "actual": what, "impl": line[:2000]})
+        for fp, what in monitor(c, line, fails):
+            ck.violation(fp, what, {"op": op, "case_quirk": c["quirk"], "actual": what, "impl": line[:2000]})
+    # --- the laws of restoring again, per selected partition in which the first restore kept a record of the last candidate
+    for ci, T2, i2, i3 in laws:
+        c = cases[ci]
+        kinds = final_kinds(c)
+        f1, f2 = S.kv(impl0[ci]), S.kv(impl[dbase + i2])
+        if f2.get("res") != "ok":
+            ck.violation("restore-again-fails", "restoring the restored topic again at %d ns fails (first restore at %d ns succeeded)" % (T2, c["Tns"]),
+                         {"op": ops[dbase + i2], "first_op": base_ops[ci], "actual": impl[dbase + i2][:500]})
+            continue
+        t1, t2 = parse_target(f1), parse_target(f2)
+        for p, kind in kinds.items():
+            if kind in ("?", "final:nothing-kept"):
+                continue
+            if i3 is None:
+                ck.count("law:again-at-same-or-later-time-is-identity")
+                if by_part(t2, p) != by_part(t1, p):
+                    ck.violation("restore-again-not-identity",
+                                 "partition %d: restoring the restored topic again at %d ns (>= the first restore time %d ns) does not "
+                                 "reproduce it byte for byte" % (p, T2, c["Tns"]),
+                                 {"op": ops[dbase + i2], "first_op": base_ops[ci], "actual": "target differs from the restored topic"})
+            else:
+                f3 = S.kv(impl[dbase + i3])
+                ck.count("law:again-at-earlier-time-equals-source-at-that-time")
+                if f3.get("res") != "ok" or by_part(t2, p) != by_part(parse_target(f3), p):
+                    ck.violation("restore-again-earlier-differs",
+                                 "partition %d: restoring (the topic restored at %d ns) at the earlier %d ns differs from restoring the source at %d ns"
+                                 % (p, c["Tns"], T2, T2),
+                                 {"op": ops[dbase + i2], "first_op": base_ops[ci], "source_op": ops[dbase + i3],
+                                  "actual": "target of the second restore differs from the target of the direct restore"})
     for k, v in STATS.items():
         ck.count(k, v)
+    for c in cases:
+        ck.count("case:" + (c.get("fixed") or "random").split("-")[0])
     d = lib.first_diff(impl, mod)
     if d is not None:
         ck.cov["disagreements_checked"] += 1
@@ -423,7 +712,11 @@ def hunt(ck, bins):
 
 def case_from_op(op):
     t = op.split()
-    c = {"T": int(t[1]), "allowed": t[2], "quirk": "replay", "objs": []}
+    if t[1].endswith("ns"):
+        Tns = int(t[1][:-2])
+    else:
+        Tns = int(t[1]) * M
+    c = {"T": Tns // M, "Tns": Tns, "nsform": t[1].endswith("ns"), "allowed": t[2], "quirk": "replay", "objs": []}
     i = 4
     while i < len(t):
         c["objs"].append([int(t[i + 1]), int(t[i + 2]), int(t[i + 3]),
